@@ -15,6 +15,7 @@ var detProps = map[string][]string{
 	"store-sim": {"C04", "C05"},
 	"merge-sim": {"C25"},
 	"query-sim": {"C11", "C30", "C31"},
+	"capture-sim": {"C21", "C22", "C29"},
 }
 
 // selftest runs (1) the differential test of simfs against the real kernel and (2) the
